@@ -18,7 +18,7 @@ from .fc import (FCM, FC, FCC, dotted, own_walk, calls, call_name, resolve_ext, 
 # the cache's own interface: methods the rules know by name; any other private helper of a method under analysis is inlined first
 CACHE_VOCABULARY = ("_is_in_cache", "_get_from_cache", "_remove_item_from_cache", "_cache_file_name", "_cache_file_path", "_add_to_cache",
                     "_cache_eviction", "_get_cache_files", "_initialize_cache", "_download_from_resources", "get_cache_misses", "_size",
-                    "_worker", "parse_directive", "parse_directives", "remove", "purge", "in_cache")
+                    "_worker", "parse_directive", "parse_directives", "remove", "purge", "in_cache", "_get_total_size_of_files_in_bytes")
 EXPLANATION = (
     "Structural rules over filecache/cache_object.py and remote_resources.py, decided from the syntax tree, per-function "
     "CFGs and the resolved call graph: (1) constructibility - no property getter reads itself, no setter re-enters "
@@ -291,7 +291,8 @@ def run(ctx):
                    "cache file path derives from the full URI including its comment", gm.loc(cm_calls[0]))
         ctx.expect(root_uri(kws.get("uri")) == "stripped", "R18.2", "get_cache_misses[download uri]",
                    "only the URI handed to the download function has the comment stripped", gm.loc(cm_calls[0]))
-    gi = p.get_method(FC, "__getitem__")
+    from .fc import inline_value_calls
+    gi = inline_value_calls(p, p.get_method(FC, "__getitem__"), keep=CACHE_VOCABULARY)
     # the returned paths are computed from the same full URIs
     from .fc import returned_name, name_bound_to_call
     fp_defs = [d for d in local_assignments(gi.node).get(returned_name(gi.node) or "", []) if d[0] == "assign"]
